@@ -138,3 +138,16 @@ package msgs
 //@ requires encInitHead(r, rpos(r), ka, smru, tmru, len(id)) && tokStr(r, rpos(r)+5, id) && tokFix(r, rpos(r)+6, 4, 0)
 //@ ensures result == nil && si.KeepaliveInterval == ka && si.SegmentMru == smru && si.TransferMru == tmru && rpos(r) == old(rpos(r)) + 7
 //@ ensures si.NodeId == id
+
+// ---- dispatch and contact header: safety only (C04) ----
+
+// Message dispatch instantiates the registered message type by reflection (outside reach): assumed to yield a value.
+// govc:trusted NewMessage
+//@ assigns nothing
+//@ ensures err == nil ==> msg != nil
+
+// govc:func ReadMessage property C04
+//@ requires r != nil
+
+// govc:func (*ContactHeader).Unmarshal property C04
+//@ requires r != nil
